@@ -134,3 +134,132 @@ def cumulative_slices(fn: FuncInfo, cums):
             ok = isinstance(up, ast.Subscript) and isinstance(up.value, ast.Name) and up.value.id == cname \
                 and norm(up.slice).replace(' ', '') in (i + '+1', '1+' + i)
             yield n, cname, i, ok
+
+
+# ---------------------------------------------------------------------------------------------------------------
+# look through naming refactorings: single-assignment locals are substituted by their defining expression
+def single_locals(fn: FuncInfo) -> dict:
+    """name -> defining expression for the locals of fn bound exactly once by a plain `name = expr` / `name: T = expr`
+    (parameters, loop/with/except/comprehension targets, augmented and tuple targets are excluded)."""
+    counts: dict = {p: 2 for p in fn.params}
+    defs: dict = {}
+    for n in walk_no_nested(fn.node):
+        if isinstance(n, ast.Assign):
+            for t in n.targets:
+                if isinstance(t, ast.Name) and len(n.targets) == 1:
+                    counts[t.id] = counts.get(t.id, 0) + 1
+                    defs[t.id] = n.value
+                else:
+                    for x in ast.walk(t):
+                        if isinstance(x, ast.Name) and isinstance(x.ctx, ast.Store):
+                            counts[x.id] = counts.get(x.id, 0) + 2
+        elif isinstance(n, ast.AnnAssign) and isinstance(n.target, ast.Name):
+            if n.value is not None:
+                counts[n.target.id] = counts.get(n.target.id, 0) + 1
+                defs[n.target.id] = n.value
+        elif isinstance(n, (ast.AugAssign, ast.NamedExpr)):
+            for x in ast.walk(n.target):
+                if isinstance(x, ast.Name):
+                    counts[x.id] = counts.get(x.id, 0) + 2
+        elif isinstance(n, (ast.For, ast.AsyncFor, ast.comprehension)):
+            for x in ast.walk(n.target):
+                if isinstance(x, ast.Name):
+                    counts[x.id] = counts.get(x.id, 0) + 2
+        elif isinstance(n, (ast.With, ast.AsyncWith)):
+            for it in n.items:
+                if it.optional_vars is not None:
+                    for x in ast.walk(it.optional_vars):
+                        if isinstance(x, ast.Name):
+                            counts[x.id] = counts.get(x.id, 0) + 2
+        elif isinstance(n, ast.ExceptHandler) and n.name:
+            counts[n.name] = counts.get(n.name, 0) + 2
+        elif isinstance(n, (ast.Global, ast.Nonlocal)):
+            for g in n.names:
+                counts[g] = counts.get(g, 0) + 2
+    return {k: v for k, v in defs.items() if counts.get(k) == 1}
+
+
+def mutated_names(fn: FuncInfo) -> set:
+    """Locals whose OBJECT is mutated after binding (subscript/attribute stores, in-place operators, mutator calls):
+    substituting their defining expression would lose the mutation."""
+    from .model import MUTATORS
+    out = set()
+    for n in walk_no_nested(fn.node):
+        if isinstance(n, (ast.Subscript, ast.Attribute)) and isinstance(n.ctx, (ast.Store, ast.Del)):
+            r = n
+            while isinstance(r, (ast.Subscript, ast.Attribute)):
+                r = r.value
+            if isinstance(r, ast.Name):
+                out.add(r.id)
+        elif isinstance(n, ast.AugAssign) and isinstance(n.target, ast.Name):
+            out.add(n.target.id)
+        elif isinstance(n, ast.Call) and isinstance(n.func, ast.Attribute) and n.func.attr in MUTATORS \
+                and isinstance(n.func.value, ast.Name):
+            out.add(n.func.value.id)
+    return out
+
+
+class _Expand(ast.NodeTransformer):
+    def __init__(self, defs: dict, skip: set, depth: int = 12):
+        self.defs, self.skip, self.depth = defs, skip, depth
+
+    def visit_Name(self, n: ast.Name):
+        if isinstance(n.ctx, ast.Load) and n.id in self.defs and n.id not in self.skip and self.depth > 0:
+            import copy
+            sub = _Expand(self.defs, self.skip | {n.id}, self.depth - 1)
+            return sub.visit(copy.deepcopy(self.defs[n.id]))
+        return n
+
+
+def expand(e: ast.AST, defs: dict, skip: Optional[set] = None) -> ast.AST:
+    """Copy of expression e with every single-assignment local replaced (recursively) by its defining expression."""
+    import copy
+    return ast.fix_missing_locations(_Expand(defs, set(skip or ())).visit(copy.deepcopy(e)))
+
+
+def expander(fn: FuncInfo, keep_mutated: bool = True):
+    """f(expr) -> expanded copy, for fn's single-assignment locals (locals mutated in place are kept by name)."""
+    defs = single_locals(fn)
+    skip = mutated_names(fn) if keep_mutated else set()
+    return lambda e: expand(e, defs, skip)
+
+
+def always_exits(body: List[ast.stmt]) -> bool:
+    """Every path through the statement list leaves the enclosing block (return / raise / continue / break)."""
+    if not body:
+        return False
+    last = body[-1]
+    if isinstance(last, (ast.Return, ast.Raise, ast.Continue, ast.Break)):
+        return True
+    if isinstance(last, ast.If):
+        return bool(last.orelse) and always_exits(last.body) and always_exits(last.orelse)
+    return False
+
+
+def early_exit_tests(fn: FuncInfo, node: ast.AST) -> List[ast.expr]:
+    """Tests T of earlier sibling statements `if T: <always exits>` (no else) that dominate node: on reaching node,
+    every such T was false."""
+    out: List[ast.expr] = []
+
+    def rec(body: List[ast.stmt], acc: List[ast.expr]) -> bool:
+        acc = list(acc)
+        for s in body:
+            if s is node or any(x is node for x in ast.walk(s)):
+                # descend into the statement's own blocks
+                for fld in ('body', 'orelse', 'finalbody'):
+                    sub = getattr(s, fld, None)
+                    if isinstance(sub, list) and sub and isinstance(sub[0], ast.stmt) and \
+                            any(x is node for b in sub for x in ast.walk(b)):
+                        return rec(sub, acc)
+                if isinstance(s, ast.Try):
+                    for h in s.handlers:
+                        if any(x is node for b in h.body for x in ast.walk(b)):
+                            return rec(h.body, acc)
+                out.extend(acc)
+                return True
+            if isinstance(s, ast.If) and not s.orelse and always_exits(s.body):
+                acc.append(s.test)
+        return False
+
+    rec(fn.node.body, [])
+    return out
